@@ -788,3 +788,6 @@ M('sweep-mq-destroy-skips-existing-sender', ['C08'], MQ, "        if self.sender
 M('sweep-mq-recv-empty-with-sources', ['C03'], MQ, "        if self.receiver is None:\n            return {}", "        if self.receiver is not None:\n            return {}", ['C03.R18'])
 M('sweep-mq-recv-none-when-data-came', ['C03'], MQ, "timeout)) is None:\n            return None\n\n        topicmsgs, self.send_state = res", "timeout)) is not None:\n            return None\n\n        topicmsgs, self.send_state = res", ['C03.R18'])
 M('sweep-filter-send-wait-gives-up-at-once', ['C04'], F, "            if (outputs_timeout := outputs_timeout - POLL_TIMEOUT_MS) <= 0:\n                break\n\n        if (exit_after_t", "            if not (outputs_timeout := outputs_timeout - POLL_TIMEOUT_MS) <= 0:\n                break\n\n        if (exit_after_t", ['C04.R12'])
+M('sweep-util-xforms-skipped-when-configured', ['C17'], UT, "        if xforms := self.xforms:\n            topic_xforms =", "        if not (xforms := self.xforms):\n            topic_xforms =", ['C17.R12'])
+M('sweep-util-xform-assignment-swapped', ['C17'], UT, "                if (xform_topics := xform.topics) is None:  # apply to all topics", "                if (xform_topics := xform.topics) is not None:  # apply to all topics", ['C17.R12'])
+M('sweep-util-chain-result-not-stored', ['C17'], UT, "        topic_xform.frame = frame\n\n        return topic_xform", "        return topic_xform", ['C17.R12'])
